@@ -73,6 +73,15 @@ func (lc *linCtx) edgeCondOnPath(p, b *ssa.BasicBlock, binds map[*ssa.Phi]phiBin
 	return lc.condCons(cond, truth), true
 }
 
+func hasBackEdge(b *ssa.BasicBlock) bool {
+	for _, p := range b.Preds {
+		if b.Dominates(p) {
+			return true
+		}
+	}
+	return false
+}
+
 func (lc *linCtx) hypAlts(b *ssa.BasicBlock) altSet {
 	memo := map[*ssa.BasicBlock]*altSet{}
 	var rec func(b *ssa.BasicBlock) altSet
@@ -109,6 +118,21 @@ func (lc *linCtx) hypAlts(b *ssa.BasicBlock) altSet {
 					continue
 				}
 				na := append(append([]cons{}, a...), ec...)
+				// integer φ-nodes of a plain merge block (not a loop header) take, on this edge, the
+				// value that flows in: `head, tail := 0, n; if c { head, tail = n, 0 }` keeps head+tail = n
+				if !hasBackEdge(b) {
+					for _, in := range b.Instrs {
+						phi, ok := in.(*ssa.Phi)
+						if !ok {
+							break
+						}
+						if !isIntType(phi.Type()) || pi >= len(phi.Edges) {
+							continue
+						}
+						pv, ev := lc.of(phi), lc.of(phi.Edges[pi])
+						na = append(na, consLE(pv, ev, "φ on this edge"), consLE(ev, pv, "φ on this edge"))
+					}
+				}
 				// boolean φ-nodes of b on this edge
 				nb := pb
 				copied := false
